@@ -2100,6 +2100,15 @@ def model_case(v, shape, N):
     s1 = M.to_schema()
     s1b = M.to_schema()
     asserts.append(("model/to_schema_stable", v.holds(fingerprint(s1) == fingerprint(s1b) and bool(s1 == s1b))))
+    if shape == "single":
+        # the other class-level entry points that hand out or use the compiled schema leave it as it is
+        fp_cached = fingerprint(M.to_schema())
+        for use in (lambda: M.empty(), lambda: M.to_yaml(), lambda: M.strategy(size=1)):
+            try:
+                use()
+            except Exception:  # noqa: BLE001 - an entry point that does not apply to this model still must not change the schema
+                pass
+        asserts.append(("model/to_schema_stable_after_class_level_use", v.holds(fingerprint(M.to_schema()) == fp_cached)))
     S = spec()
     if shape not in ("check_methods", "inherited_cls_check", "parser_methods", "two_parsers", "regex_check"):
         asserts.append(("model/schema_equals_spec", v.holds(_fp_cols(s1) == _fp_cols(S))))
@@ -2769,13 +2778,15 @@ def infer_case(v, shape, kinds, N, serialise):
     if shape == "series":
         obj = v.series("c0_", kinds[0], N, sname="c0", labels="l")
         cells = {"c0": v.cells("c0_", kinds[0], N, kinds[0] in ("float", "str"))}
-    elif shape in ("mi", "mi_filtered"):
+    elif shape in ("mi", "mi_filtered", "mi_emptyname"):
         # two-level MultiIndex; "mi_filtered": one more row is built and sliced off again (its level values stay in the index)
         extra = 1 if shape == "mi_filtered" else 0
         arr = [(f"c{i}", k) for i, k in enumerate(kinds)]
-        obj = v.mi_frame(arr, N, levels=[("k0", "l"), ("k1", "m")], extra_filtered=extra)
+        # mi_emptyname: a level whose name is the empty string (a falsy but legal name, e.g. after set_index(["k", ""]))
+        lv0 = "" if shape == "mi_emptyname" else "k0"
+        obj = v.mi_frame(arr, N, levels=[(lv0, "l"), ("k1", "m")], extra_filtered=extra)
         cells = {c: tuple(x[:N] for x in v.cells(f"{c}_", k, N + extra, k in ("float", "str"))) for c, k in arr}
-        idx_levels = {"k0": v.labels("l", N + extra)[:N], "k1": v.labels("m", N + extra)[:N]}
+        idx_levels = {lv0: v.labels("l", N + extra)[:N], "k1": v.labels("m", N + extra)[:N]}
     elif shape in ("frame_default_index", "frame_reversed"):
         # pandas' default RangeIndex, as it is and reversed (`df[::-1]`: start > stop, step -1)
         arr = [(f"c{i}", k) for i, k in enumerate(kinds)]
